@@ -11,7 +11,8 @@ def parseItem (i : Nat) (t : String) : Option Item :=
   | [c, v] =>
     let ty? := if c = 'e' then some ed25519ID else if c = 's' then some secp256r1ID
                else if c = 'b' then some blsID else none
-    let ok? := if v = '1' then some true else if v = '0' ∨ v = '2' then some false else none
+    let ok? := if v = '1' then some true else if v = '0' ∨ v = '2' then some false
+               else if c = 'e' ∧ v = '3' then some true else if c = 'e' ∧ v = '4' then some false else none
     match ty?, ok? with
     | some ty, some ok => some (i, ty, ok)
     | _, _ => none
@@ -26,12 +27,35 @@ def parseItems : Nat → List String → Option (List Item)
 def commaNat (l : List Nat) : String :=
   if l.isEmpty then "-" else String.intercalate "," (l.map toString)
 
+/-- two jobs on one pool; a trailing `g` marks the gated item of job A; verdicts are per job -/
+def overlapStep (w : String) (items : List String) : String :=
+  match items with
+  | mode :: a :: rest =>
+    if a != "A" then "bad-op" else
+    if !w.startsWith "w=" then "bad-op" else
+    if !(mode == "b-before-release" || mode == "b-after-a") then "bad-op" else
+    let aToks := rest.takeWhile (· ≠ "B")
+    let bToks := (rest.dropWhile (· ≠ "B")).drop 1
+    let strip (t : String) : String := if t.endsWith "g" then (t.dropEnd 1).toString else t
+    match (w.drop 2).toString.toNat?, parseItems 0 (aToks.map strip), parseItems 0 bToks with
+    | some cores, some a, some b =>
+      if cores < 1 ∨ cores > 64 ∨ ¬ rest.contains "B" ∨
+          aToks.any (fun t => t.endsWith "g" && t.startsWith "e") then "bad-op" else
+      let ty : Item → Nat := fun x => x.2.1
+      let v1 : Item → Bool := fun x => x.2.2
+      let r (its : List Item) := if blockSigOk ty defaultBatched v1 cores its then "ok" else "fail"
+      s!"A={r a} B={r b}"
+    | _, _, _ => "bad-op"
+  | _ => "bad-op"
+
 def step (_ : Unit) (ws : List String) : Unit × String :=
   match ws with
   | ["facts"] =>
     let ids := [ed25519ID, secp256r1ID, blsID]
     ((), s!"minbatch={minBatchSize} batched={String.intercalate "," ((ids.filter defaultBatched).map toString)} ids={String.intercalate "," (ids.map toString)}")
-  | "block" :: w :: items =>
+  | op :: w :: items =>
+    -- `block`: worker pool; `blocke`: eager job (same contract, same model output)
+    if op == "block" || op == "blocke" then
     if !w.startsWith "w=" then ((), "bad-op") else
     match (w.drop 2).toString.toNat?, parseItems 0 items with
     | some cores, some its =>
@@ -46,22 +70,19 @@ def step (_ : Unit) (ws : List String) : Unit × String :=
       let pending := eds.length - early.foldl (· + ·) 0
       ((), s!"{if ok then "ok" else "fail"} direct={direct} early={commaNat early} done={k}:{pending}")
     | _, _ => ((), "bad-op")
-  | "overlap" :: w :: mode :: "A" :: rest =>
-    -- two jobs on one pool; a trailing `g` marks the gated item of job A; verdicts are per job
+    else if op == "exec" then
+    -- a block through Processor.Execute: signature failure or not
     if !w.startsWith "w=" then ((), "bad-op") else
-    if !(mode == "b-before-release" || mode == "b-after-a") then ((), "bad-op") else
-    let aToks := rest.takeWhile (· ≠ "B")
-    let bToks := (rest.dropWhile (· ≠ "B")).drop 1
-    let strip (t : String) : String := if t.endsWith "g" then (t.dropEnd 1).toString else t
-    match (w.drop 2).toString.toNat?, parseItems 0 (aToks.map strip), parseItems 0 bToks with
-    | some cores, some a, some b =>
-      if cores < 1 ∨ cores > 64 ∨ ¬ rest.contains "B" ∨
-          aToks.any (fun t => t.endsWith "g" && t.startsWith "e") then ((), "bad-op") else
-      let ty : Item → Nat := fun x => x.2.1
-      let v1 : Item → Bool := fun x => x.2.2
-      let r (its : List Item) := if blockSigOk ty defaultBatched v1 cores its then "ok" else "fail"
-      ((), s!"A={r a} B={r b}")
-    | _, _, _ => ((), "bad-op")
+    match (w.drop 2).toString.toNat?, parseItems 0 items with
+    | some cores, some its =>
+      if cores < 1 ∨ cores > 64 then ((), "bad-op") else
+      let txs : List (SigTx (Nat × Bool) Nat) :=
+        its.map fun x => { unsigned := (x.1, x.2.2), signedBytes := (x.1, false), auth := x.2.1 }
+      -- the auth verifies over the unsigned bytes iff the item is marked valid; never over other bytes
+      let ok := verifyBlockSigs (fun m _ => m.2) (fun a => a) defaultBatched cores txs
+      ((), if ok then "ok" else "sigfail")
+    | _, _ => ((), "bad-op")
+    else if op == "overlap" then ((), overlapStep w items) else ((), "bad-op")
   | _ => ((), "bad-op")
 
 def machine : Machine := { σ := Unit, init := (), step := step }
